@@ -95,10 +95,14 @@ var tagAlphabet = []string{"", "t:1", "t:2", "env:prod", "host:h1", "a", "s:10.0
 var srcAlphabet = []string{"", "10.0.0.1", "10.0.0.2", "i-0abc", "h"}
 
 func genName(r *hx.Rng) string {
-	if r.Chance(3, 4) {
+	if r.Chance(3, 5) {
 		return hx.Pick(r, nameAlphabet)
 	}
 	n := r.Range(1, 12)
+	if r.Chance(1, 2) {
+		// production-like long names: the two 32-bit checksums Bucket adds then have high bits set and their sum wraps
+		n = r.Range(30, 120)
+	}
 	b := make([]byte, n)
 	for i := range b {
 		b[i] = byte('a' + r.Intn(26))
@@ -110,6 +114,14 @@ func genTags(r *hx.Rng) gostatsd.Tags {
 	n := r.Intn(4)
 	t := gostatsd.Tags{}
 	for i := 0; i < n; i++ {
+		if r.Chance(1, 4) {
+			b := make([]byte, r.Range(20, 60))
+			for j := range b {
+				b[j] = byte('a' + r.Intn(26))
+			}
+			t = append(t, "k:"+string(b))
+			continue
+		}
 		t = append(t, hx.Pick(r, tagAlphabet))
 	}
 	return t
@@ -298,7 +310,9 @@ type recorder struct {
 func (r *recorder) ReceiveMap(mm *gostatsd.MetricMap) {
 	r.mu.Lock()
 	defer r.mu.Unlock()
-	mm.Counters.Each(func(n, t string, c gostatsd.Counter) { r.seen = append(r.seen, "c "+hx.S(n)+" "+hx.S(t)+" "+encCounter(c)) })
+	mm.Counters.Each(func(n, t string, c gostatsd.Counter) {
+		r.seen = append(r.seen, "c "+hx.S(n)+" "+hx.S(t)+" "+encCounter(c))
+	})
 	mm.Timers.Each(func(n, t string, c gostatsd.Timer) { r.seen = append(r.seen, "t "+hx.S(n)+" "+hx.S(t)+" "+encTimer(c)) })
 	mm.Gauges.Each(func(n, t string, c gostatsd.Gauge) { r.seen = append(r.seen, "g "+hx.S(n)+" "+hx.S(t)+" "+encGauge(c)) })
 	mm.Sets.Each(func(n, t string, c gostatsd.Set) { r.seen = append(r.seen, "s "+hx.S(n)+" "+hx.S(t)+" "+encSet(c)) })
@@ -350,7 +364,68 @@ func dispatch(n int, entries [][]string) string {
 		}
 		r.mu.Unlock()
 	}
-	return "D " + strings.Join(out, " | ")
+	return "D " + strings.Join(out, " | ") + " || " + dispatchCancelled(n, entries, nonEmpty%4)
+}
+
+// countCtx is a context that becomes cancelled at its (after+1)-th Done() call: DispatchMetricMap asks once per
+// shard it sends, so the cancellation is observed in the middle of the dispatch, at a place the case chooses.
+type countCtx struct {
+	context.Context
+	mu    sync.Mutex
+	calls int
+	after int
+	ch    chan struct{}
+	done  bool
+}
+
+func (c *countCtx) Done() <-chan struct{} {
+	c.mu.Lock()
+	defer c.mu.Unlock()
+	c.calls++
+	if c.calls > c.after && !c.done {
+		c.done = true
+		close(c.ch)
+	}
+	return c.ch
+}
+
+func (c *countCtx) Err() error {
+	c.mu.Lock()
+	defer c.mu.Unlock()
+	if c.done {
+		return context.Canceled
+	}
+	return nil
+}
+
+// dispatchCancelled sends the batch with a context that is cancelled while the shards are being handed out.  Which
+// shards still get through is the runtime's choice; whatever a worker is handed must be routed to that worker.
+func dispatchCancelled(n int, entries [][]string, after int) string {
+	recs := []*recorder{}
+	factory := statsd.AggregatorFactoryFunc(func() statsd.Aggregator {
+		r := &recorder{}
+		recs = append(recs, r)
+		return r
+	})
+	bh := statsd.NewBackendHandler(nil, 1, n, 2, factory)
+	live, stop := context.WithCancel(context.Background())
+	defer stop()
+	go bh.Run(live)
+	mm, _ := build(entries)
+	bh.DispatchMetricMap(&countCtx{Context: context.Background(), after: after, ch: make(chan struct{})}, mm)
+	bh.Process(live, func(int, statsd.Aggregator) {})()
+	out := make([]string, n)
+	for i, r := range recs {
+		r.mu.Lock()
+		sort.Strings(r.seen)
+		if len(r.seen) == 0 {
+			out[i] = "-"
+		} else {
+			out[i] = strings.Join(r.seen, " ; ")
+		}
+		r.mu.Unlock()
+	}
+	return "X " + strings.Join(out, " | ")
 }
 
 func main() {
